@@ -60,6 +60,7 @@ def Step.target : Step → Option Nat
   | .query .. => none
   | .dups .. => none
   | .fresh dst .. => some dst
+  | .clone dst .. => some dst
   | .discover dst .. => some dst
   | .roundtrip dst .. => some dst
   | .remapCurie dst .. => some dst
@@ -124,6 +125,26 @@ def checkAdd (idx : Nat) (fold : Str → Str) (o : SlotObs) (what : String) (r :
     | .err e => [s!"step {idx}: {what} raised {e.name}, expected ValueError or success"]
     | _ => []
 
+/-- the records `add_record` leaves behind (C05), computed on the records observed before the call: appended when
+nothing matches, merged into the single match when `merge` is set; a rejected call leaves the records as they
+were.  `none`: the call must be rejected. -/
+def expectedAfterAdd (fold : Str → Str) (recs : List Record) (r : Record) (cs merge : Bool) : Option (List Record) :=
+  match recs.filter fun x => matchesRec fold cs r x with
+  | [] => some (recs ++ [r])
+  | [x] => if merge then some (recs.map fun y => if y = x then r.mergeInto x else y) else none
+  | _ => none
+
+/-- what the next reading of the records must show after an `add_record` / `add_prefix` call -/
+def expectAfterAdd (fold : Str → Str) (o : SlotObs) (r : Record) (cs merge : Bool) (obs : Val) : Option (List Record) :=
+  match o.recs with
+  | none => none
+  | some recs =>
+    if !Spec.unique recs then none else
+    match obs with
+    | .none => expectedAfterAdd fold recs r cs merge
+    | .err _ => some recs                      -- a rejected call leaves no trace
+    | _ => none
+
 def checkStep (fold : Str → Str) (idx : Nat) (t : SlotTable) (st : Step) (obs : Val) : SlotTable × List String :=
   match st with
   | .remapCurie dst src rm =>
@@ -140,6 +161,9 @@ def checkStep (fold : Str → Str) (idx : Nat) (t : SlotTable) (st : Step) (obs 
       | _ => []
     (t.put { slot := dst, derived := (t.get src).recs.map fun b => .remapUri b rm }, errs)
   | .rewire dst src rm => (t.put { slot := dst, derived := (t.get src).recs.map fun b => .rewire b rm }, [])
+  | .clone dst src =>
+    -- a copy holds what the original holds: what was observed of the original is expected of the copy
+    (t.put { t.get src with slot := dst }, [])
   | .fresh dst src extra =>
     (t.put { slot := dst },
       match (t.get src).recs with
@@ -197,7 +221,7 @@ def checkStep (fold : Str → Str) (idx : Nat) (t : SlotTable) (st : Step) (obs 
                     r.allU.all (fun k => r.uri.length ≤ k.length)
                 else Spec.sameRecord w r
               if want.length == l.length && want.all (fun w => l.any (same w)) then []
-              else [s!"step {idx}: the loaded converter does not hold exactly the records its input denotes"]
+              else [s!"step {idx}: the converter does not hold exactly the records its construction and history denote"]
             | none => [])
       (t.put { o with recs := some l }, errs)
     | "delimiter", .str d => (t.put { o with delim := some d }, [])
@@ -216,10 +240,16 @@ def checkStep (fold : Str → Str) (idx : Nat) (t : SlotTable) (st : Step) (obs 
         else (t, [])
       | _, _ => (t, [])
   | .addRecord c r cs merge =>
-    (t.put { slot := c }, if Spec.recOK r then checkAdd idx fold (t.get c) "add_record" r cs merge obs else [])
+    if Spec.recOK r then
+      (t.put { slot := c, expect := expectAfterAdd fold (t.get c) r cs merge obs },
+        checkAdd idx fold (t.get c) "add_record" r cs merge obs)
+    else (t.put { slot := c }, [])
   | .addPrefix c p u ps us cs merge =>
     let r : Record := { pfx := p, uri := u, pSyn := sortStrs ps, uSyn := sortStrs us }
-    (t.put { slot := c }, if Spec.recOK r then checkAdd idx fold (t.get c) "add_prefix" r cs merge obs else [])
+    if Spec.recOK r then
+      (t.put { slot := c, expect := expectAfterAdd fold (t.get c) r cs merge obs },
+        checkAdd idx fold (t.get c) "add_prefix" r cs merge obs)
+    else (t.put { slot := c }, [])
   | _ =>
     match st.target with
     | some c => (t.put { slot := c }, [])     -- records may have changed: forget them
